@@ -310,9 +310,14 @@ class _Walker(FlowWalker):
         if isinstance(t, ast.Name):
             env.names[t.id] = v
         elif isinstance(t, (ast.Tuple, ast.List)):
+            # positional: a tuple literal / returned tuple keeps its elements apart (field i); anything else yields its contents
             c = self.an.contents(v, env)
-            for e in t.elts:
-                self.assign(e.value if isinstance(e, ast.Starred) else e, c, env, st)
+            starred = any(isinstance(e, ast.Starred) for e in t.elts)
+            for i, e in enumerate(t.elts):
+                if isinstance(e, ast.Starred) or starred:
+                    self.assign(e.value if isinstance(e, ast.Starred) else e, c, env, st)
+                else:
+                    self.assign(e, self.an.field(v, i, env), env, st)
         elif isinstance(t, ast.Attribute):
             recv = self.ev(t.value, env)
             self.an.store_field(recv, t.attr, v, env, self.fi, st, "attribute store")
@@ -380,8 +385,13 @@ class _Walker(FlowWalker):
             inner = frozenset(o for o in c if o.kind == "fresh" and o.label.startswith(("call:", "lit:", "comp:")))
             rest = c - inner
             cc = self.an.contents(inner, env) | rest
-            for e in target.elts:
-                self.assign(e.value if isinstance(e, ast.Starred) else e, cc, env, it)
+            starred = any(isinstance(e, ast.Starred) for e in target.elts)
+            for i, e in enumerate(target.elts):
+                if isinstance(e, ast.Starred) or starred:
+                    self.assign(e.value if isinstance(e, ast.Starred) else e, cc, env, it)
+                else:
+                    # element i of the yielded tuples (zip/enumerate/items keep positions apart)
+                    self.assign(e, self.an.field(inner, i, env) | frozenset(o.child(i) if o.kind != "fresh" else o for o in rest), env, it)
         else:
             self.assign(target, c, env, it)
         return env
@@ -634,7 +644,16 @@ class _Walker(FlowWalker):
             del env.heap[k]
         short = name.split(".")[-1] if name else ""
         if name in CONTAINER_BUILDERS or short in ("OrderedDict", "defaultdict", "deepcopy"):
-            if name in ("zip", "enumerate", "map", "filter"):
+            if name in ("zip", "enumerate") and not star_kw:
+                # yields tuples: position i holds the elements of argument i (enumerate: position 0 is an int)
+                tup = self.an.fresh_obj("call:%s:%d:%d:tuple" % (self.fi.qual, node.lineno, node.col_offset))
+                for k in [k for k in env.heap if k[0] is tup]:
+                    del env.heap[k]
+                cols = ([EMPTY] if name == "enumerate" else []) + [self.an.contents(a, env) for a in args]
+                for i, cv in enumerate(cols):
+                    env.heap[(tup, i)] = cv
+                self.an.add_field(o, "*", frozenset([tup]), env)
+            elif name in ("zip", "enumerate", "map", "filter"):
                 self.an.add_field(o, "*", self.an.contents(frozenset(allv), env), env)
             else:
                 # dict(d) / list(x): a shallow copy — same keys, same member objects
@@ -691,9 +710,18 @@ class _Walker(FlowWalker):
                 out |= self.an.field(frozenset([o]), k if isinstance(k, (str, int)) and not isinstance(k, bool) else "*", env)
                 for a in args[1:]:
                     out |= a
-            elif mname in ("items", "values", "keys", "__iter__"):
+            elif mname == "items":
                 r = self.an.fresh_obj(site)
-                env.heap[(r, "*")] = self.an.contents(frozenset([o]), env)
+                tup = self.an.fresh_obj(site + ":tuple")
+                for k in [k for k in env.heap if k[0] in (r, tup)]:
+                    del env.heap[k]
+                env.heap[(tup, 0)] = EMPTY
+                env.heap[(tup, 1)] = self.an.contents(frozenset([o]), env)
+                env.heap[(r, "*")] = frozenset([tup])
+                out.add(r)
+            elif mname in ("values", "keys", "__iter__"):
+                r = self.an.fresh_obj(site)
+                env.heap[(r, "*")] = self.an.contents(frozenset([o]), env) if mname != "keys" else EMPTY
                 out.add(r)
             elif mname == "copy":
                 r = self.an.fresh_obj(site)
